@@ -169,6 +169,47 @@ def attr_load_correspondence(ctx, n):
                           model=sorted(out['loaded']), impl=impl)
 
 
+def field_class_probe(ctx):
+    """fields whose classes are project-defined - some named like a class that django.db.models exports (a project's
+    own JSONField / UUIDField), some not -, next to Django's own classes of those names: stored as text and read back, every field has the very class it was stored with, the signatures are equal,
+    no difference in either direction, and the re-serialised text is the stored text"""
+    from collections import OrderedDict
+    from django.db import models as dm
+    from django_evolution.diff import Diff
+    from django_evolution.signature import (AppSignature, FieldSignature, ModelSignature, ProjectSignature)
+    from .. import customfields as cf
+    classes = [('own_json', cf.JSONField, {}), ('dj_json', dm.JSONField, {}), ('own_uuid', cf.UUIDField, {'max_length': 36}),
+               ('dj_uuid', dm.UUIDField, {}), ('code', cf.ShortCodeField, {'max_length': 8}), ('count', cf.CountField, {}),
+               ('n', dm.IntegerField, {'null': True})]
+    p = ProjectSignature()
+    app = AppSignature(app_id='vapp')
+    ms = ModelSignature(model_name='Doc', table_name='vapp_doc', pk_column='id')
+    ms.add_field_sig(FieldSignature(field_name='id', field_type=dm.AutoField, field_attrs={'primary_key': True}))
+    for name, cls, attrs in classes:
+        ms.add_field_sig(FieldSignature(field_name=name, field_type=cls, field_attrs=dict(attrs)))
+    app.add_model_sig(ms)
+    p.add_app_sig(app)
+    for version in (2,):      # version 1 keeps the class object itself (pickled rows), there is no name to resolve
+        text = json.dumps(p.serialize(sig_version=version))
+        back = ProjectSignature.deserialize(json.loads(text, object_pairs_hook=OrderedDict))
+        rep = {'scenario': 'project-defined field classes, signature version %d' % version, 'stored': text[:600]}
+        ctx.count('field_class_probe')
+        ctx.case({'scenario': 'field classes', 'sig_version': version}, nontrivial=True, sample_cap=2)
+        mb = app_by_id(back, 'vapp').get_model_sig('Doc')
+        for name, cls, _ in classes:
+            got = mb.get_field_sig(name).field_type
+            if got is not cls:
+                ctx.fail(None, 'field %s was stored with class %s.%s and reads back as %s.%s'
+                         % (name, cls.__module__, cls.__name__, got.__module__, got.__name__), rep)
+        if version == 2:
+            if not (p == back):
+                ctx.fail(None, 'a signature with project-defined field classes is not equal to its stored-and-reloaded form', rep)
+            if not (Diff(p, back).is_empty() and Diff(back, p).is_empty()):
+                ctx.fail(None, 'a signature with project-defined field classes differs from its stored-and-reloaded form', rep)
+            if json.dumps(back.serialize(sig_version=2)) != text:
+                ctx.fail(None, 'the re-serialised text of a signature with project-defined field classes changed', rep)
+
+
 def run(ctx):
     evorig.setup()
     quick = ctx.tier == 'quick'
@@ -176,6 +217,7 @@ def run(ctx):
                 'dicts/OrderedDicts, nested/negated/OR/XOR Q trees, F, Value, combined expressions, Deferrable enums, '
                 'nested to depth 3; non-trivial = contains a container or an object; plus project signatures with '
                 'check/unique constraints and conditional/expression indexes through Version.save()/reload')
+    field_class_probe(ctx)
     strict_src = dispatch_strict_from_source()
     # probe with the Lean witness Q(a=1)
     from django.db.models import Q
